@@ -518,7 +518,9 @@ def run_grid(spec, cnt, prop, feat):
                 exp_dim = zdim_th  # target_data defaults to the grid's coordinate, whose name is the dimension's
         elif tg["kind"] == "da":
             lv = np.array(tg["levels"], dtype="float64")
-            target = xr.DataArray(lv, dims=[tg["dim"]], coords={tg["dim"]: lv}, name=tg["name"])
+            target = xr.DataArray(lv, dims=[tg["dim"]], coords={tg["dim"]: lv}, name=tg["name"],
+                                  attrs={"units": "kg m-3"})
+            target = target.assign_coords(run=7)  # a scalar coordinate riding along
             exp_dim = tg["dim"]
         else:
             lv = np.array(tg["levels"], dtype="float64").reshape(tuple(cols) + (-1,))
